@@ -18,7 +18,8 @@ props.prop(
                 'they iterate.',
     decides='that viewers react to subset create/delete, collection delete and data changes; that pickers refresh on '
             'component changes/reorder and dataset removal; that both directions of the layer sync are registered; that a '
-            'restored viewer gets one layer artist per saved layer; that no handler mutates a live collection while iterating it',
+            'restored viewer gets one layer artist per saved layer; that no handler mutates a live collection while iterating it; '
+            'that a change detector never acts on a value without remembering it',
     not_decided='which choices a picker offers or selects, distinctness of the image axes, callback-property values',
     assumptions=['LayerArtistContainer notifies synchronously on every mutation'])
 
